@@ -5,6 +5,7 @@ import ALV.Model.C11Hist
 import ALV.Model.C11Float
 import ALV.Model.C11Call
 import ALV.Model.C11LevFloat
+import ALV.Model.C11Apply
 namespace ALV.Driver.C11
 open ALV ALV.J ALV.C11 ALV.C11.Hist
 
@@ -44,6 +45,27 @@ def callResJson : CallRes Rat → Json
   | .valueError => Json.mkObj [("err", Json.str "ValueError")]
   | .zeroDiv => Json.mkObj [("err", Json.str "ZeroDivisionError")]
   | .ok ks b => ksJson (ks, b)
+
+def getArgObj (j : Json) : Except String (ArgObj Rat) := do
+  match (← getStr (← field j "kind")) with
+  | "filt" => pure (.filt (← getInt (← field j "num_lo")) (← getList getRat (← field j "num"))
+                      (← getInt (← field j "den_lo")) (← getList getRat (← field j "den")))
+  | "rational" => pure .rational
+  | "stream" => pure .stream
+  | "other" => pure .other
+  | s => throw s!"C11: object kind {s}"
+
+def excJson : Exc → Json
+  | .typeError => Json.str "TypeError"
+  | .attributeError => Json.str "AttributeError"
+  | .valueError => Json.str "ValueError"
+  | .zeroDivisionError => Json.str "ZeroDivisionError"
+
+def applyResJson : ApplyRes Rat → Json
+  | .atCall e => Json.mkObj [("when", Json.str "call"), ("err", excJson e)]
+  | .atNext e => Json.mkObj [("when", Json.str "next"), ("err", excJson e)]
+  | .gen ks b => Json.mkObj [("when", Json.str "gen"), ("ks", rats ks), ("raised", Json.bool b)]
+  | .verdict b => Json.mkObj [("when", Json.str "verdict"), ("verdict", Json.bool b)]
 
 /-! ### payloads shared by the single-call entries and by the steps of a history -/
 
@@ -222,6 +244,13 @@ def handle (entry : String) (j : Json) : Except String Json := do
     -- the summation function of the twin, for the identity check of the harness
     let ls ← getList (getList getBits) (← field j "lists")
     pure <| Json.mkObj [("sum", bitsJson (ls.map (sumPyG F64.isFinite))), ("fold", bitsJson (ls.map lsum))]
+  | "apply" =>
+    -- the call expressions parcor(*args, **kwargs) / parcor_stable(*args, **kwargs)
+    let args ← getList getArgObj (← field j "args")
+    let kwargs ← getList (fun p => do
+      pure ((← getStr (← field p "name")), (← getArgObj (← field p "obj")))) (← field j "kwargs")
+    pure <| Json.mkObj [("parcor", applyResJson (parcorApply args kwargs)),
+                        ("stable", applyResJson (stableApply args kwargs))]
   | "call" =>
     -- parcor / parcor_stable on ZFilter(num, den) with Laurent numerator and denominator
     let numLo ← getInt (← field j "num_lo")
